@@ -7,6 +7,7 @@ pub mod big;
 pub mod c01;
 pub mod c02;
 pub mod c03;
+pub mod c03_conv;
 pub mod c04;
 pub mod c05;
 pub mod c06;
